@@ -7,6 +7,14 @@ int c_islin(int nval, double thresh, double tol, int npoints,
     int ierr=0, i, k, count, start, lintype;
     double dist, vprec, vnext, vcur;
 
+    /* A series of less than 3 points has no linear stretch
+     * (and no data[1] to start from) */
+    if(nval < 3)
+    {
+        for(i=0; i<nval; i++) islin[i] = 0;
+        return ierr;
+    }
+
     /* initialisation */
     vprec = data[0];
     if(isnan(vprec)) vprec = thresh-1;
